@@ -186,8 +186,6 @@ unsigned FilePersister::get(const unsigned from, const unsigned to, Session& ses
 	Index::const_iterator itr(_index.find(startSeqNum));
 	if (itr != _index.end())
 	{
-		char buff[FIX8_MAX_MSG_LENGTH];
-
 		do
 		{
 			if (!itr->first || itr->first > finish)
@@ -198,13 +196,14 @@ unsigned FilePersister::get(const unsigned from, const unsigned to, Session& ses
 				break;
 			}
 
-			if (read (_fod, buff, itr->second._size) != itr->second._size)
+			f8String buff(itr->second._size, 0); // records may be longer than FIX8_MAX_MSG_LENGTH
+			if (read (_fod, &buff[0], itr->second._size) != itr->second._size)
 			{
 				glout_error << "Error: could not read message record for seqnum " << itr->first << " from: " << _dbFname;
 				break;
 			}
 
-			Session::SequencePair txresult(itr->first, f8String(buff, itr->second._size));
+			Session::SequencePair txresult(itr->first, buff);
 			++recs_sent;
 			if (!(session.*callback)(txresult, rctx))
 			{
@@ -325,14 +324,14 @@ bool FilePersister::get(const unsigned seqnum, f8String& to) const
 		return false;
 	}
 
-	char buff[FIX8_MAX_MSG_LENGTH];
-	if (read (_fod, buff, itr->second._size) != itr->second._size)
+	f8String buff(itr->second._size, 0); // records may be longer than FIX8_MAX_MSG_LENGTH
+	if (read (_fod, &buff[0], itr->second._size) != itr->second._size)
 	{
 		glout_error << "Error: could not read message record for seqnum " << seqnum << " from: " << _dbFname;
 		return false;
 	}
 
-	to.assign(buff, itr->second._size);
+	to.swap(buff);
 	return true;
 }
 
